@@ -1,6 +1,8 @@
 """Shared helpers for the per-property harness plugins (line protocol, canonical forms)."""
 import os
 import signal
+import threading
+import time
 
 
 def enc(s):
@@ -46,29 +48,82 @@ class OpTimeout(Exception):
     pass
 
 
+class _Watchdog:
+    """Per-operation watchdog that does not depend on where the kernel delivers a process-directed signal.
+
+    A helper thread sends SIGALRM to the MAIN THREAD (pthread_kill) once the innermost armed deadline has passed,
+    and again every 0.5 s until that entry is disarmed: one exception can be swallowed by the code under test, or
+    land in a cleanup of it that blocks again.  (An interval timer is not enough: with worker threads around, the
+    kernel may hand SIGALRM to another thread, and a main thread blocked in a lock acquire is then never woken -
+    found with seed C19-3, whose run never returned.)"""
+
+    def __init__(self):
+        self.entries = []
+        self.cond = threading.Condition()
+        self.thread = None
+        self.main = threading.main_thread().ident
+        self.installed = False
+
+    def _handler(self, signum, frame):
+        now = time.monotonic()
+        for e in reversed(self.entries):
+            if e["active"] and now >= e["deadline"]:
+                raise e["exc"]()
+
+    def _loop(self):
+        with self.cond:
+            while True:
+                live = [e["deadline"] for e in self.entries if e["active"]]
+                if not live:
+                    self.cond.wait(1.0)      # arm() does not notify: a deadline is noticed at most 1 s late
+                    continue
+                wait = min(live) - time.monotonic()
+                if wait > 0:
+                    self.cond.wait(min(wait, 1.0))
+                    continue
+                try:
+                    signal.pthread_kill(self.main, signal.SIGALRM)
+                except Exception:  # noqa
+                    pass
+                self.cond.wait(0.5)
+
+    def arm(self, seconds, exc):
+        if not self.installed:
+            signal.signal(signal.SIGALRM, self._handler)
+            self.installed = True
+        e = {"deadline": time.monotonic() + seconds, "exc": exc, "active": True}
+        with self.cond:
+            self.entries.append(e)
+            if self.thread is None:
+                self.thread = threading.Thread(target=self._loop, daemon=True, name="verif-watchdog")
+                self.thread.start()
+        return e
+
+    def disarm(self, e):
+        e["active"] = False
+        while True:          # a late signal may raise in here: finish the removal anyway
+            try:
+                with self.cond:
+                    if e in self.entries:
+                        self.entries.remove(e)
+                return
+            except BaseException:  # noqa
+                continue
+
+
+WATCHDOG = _Watchdog()
+
+
 def with_alarm(seconds, fn, *a):
-    """run fn(*a); a hang of the code under test becomes OpTimeout.  The timer REPEATS (every 0.5 s after the
-    first expiry) until fn has been left: a single exception can be swallowed, or can land in a `finally` of the
-    code under test that blocks again (e.g. a cleanup that waits for a thread which never finishes)."""
-    state = {"active": True}
+    """run fn(*a); a hang of the code under test becomes OpTimeout (see _Watchdog)"""
     if _HANGS[0] >= 3:          # hangs are established (each one is reported): do not spend the full limit again
         seconds = min(seconds, 3)
-
-    def handler(signum, frame):
-        if state["active"]:
-            raise OpTimeout()
-
-    old = signal.signal(signal.SIGALRM, handler)
-    old_timer = signal.setitimer(signal.ITIMER_REAL, seconds, 0.5)
+    e = WATCHDOG.arm(seconds, OpTimeout)
     try:
         try:
             return fn(*a)
         finally:
-            state["active"] = False
-            signal.setitimer(signal.ITIMER_REAL, 0)
-            signal.signal(signal.SIGALRM, old)
-            if old_timer[0] > 0:     # an enclosing watchdog (run.py's): give it its time back
-                signal.setitimer(signal.ITIMER_REAL, old_timer[0], old_timer[1])
+            WATCHDOG.disarm(e)
     except OpTimeout:
         _HANGS[0] += 1
         raise
